@@ -70,6 +70,8 @@ struct Functor {
     explicit Functor(int i) : id(i), gen(++g_gen[i]) {}
     Functor(const Functor &o) : id(o.id), gen(++g_gen[o.id]) {}
     ~Functor() { if (gen == g_gen[id]) destroyed(id); }
+    // boolean-testable with a meaning of its own ("has a result"): the pool has to run it regardless
+    explicit operator bool() const { return false; }
     void operator()() { body(id); }
 };
 struct FunctorArg {
